@@ -27,11 +27,12 @@ INLINE_MAX_RESULT = 400      # size of an inlined value
 
 
 class Sym:
-    def __init__(self, prog, fi, self_cls=None, inline=True):
+    def __init__(self, prog, fi, self_cls=None, inline=True, stack=()):
         self.prog = prog
         self.fi = fi
         self.self_cls = self_cls or fi.cls
         self.inline = inline
+        self.stack = tuple(stack) + (fi.qual,)     # functions being inlined: recursive calls stay call nodes
 
     # ------------------------------------------------------------------ functions
     def function_value(self, bound=None, depth=0):
@@ -75,7 +76,7 @@ class Sym:
             for st in path:
                 if isinstance(st, tuple) and st[0] == "guard":
                     c = self.expr(st[1], env, depth)
-                    guards.append(c if st[2] else (c[1] if c and c[0] == "not" else ("not", c)))
+                    guards.append(c if st[2] else mknot(c))
                     continue
                 if isinstance(st, ast.Raise):
                     rets.append((None, ("raise", unparse(st.exc) if st.exc is not None else "")))
@@ -110,11 +111,15 @@ class Sym:
                         if any(contains_t(x) for x in st.body):
                             guards.append(c)
                             return walk(st.body)
-                        guards.append(c[1] if c and c[0] == "not" else ("not", c))
+                        guards.append(mknot(c))
                         return walk(st.orelse)
                     if isinstance(st, (ast.For, ast.While)):
+                        self._mark_loop_mutations(st, env)
                         if isinstance(st, ast.For):
-                            self._bind(st.target, ("bv", self._fresh()), env)
+                            it = self.expr(st.iter, env, 0)
+                            bv = ("bv", self._fresh())
+                            env["<iter>"] = env.get("<iter>", ()) + ((it, bv),)     # enclosing loops: (iterable, loop variable)
+                            self._bind(st.target, bv, env)
                         if any(contains_t(x) for x in st.body):
                             return walk(st.body)
                         return walk(st.orelse)
@@ -209,7 +214,7 @@ class Sym:
                     for g, v in r1:
                         collect.append((test if g is None else ("and", test, g), v))
                     for g, v in r2:
-                        collect.append((("not", test) if g is None else ("and", ("not", test), g), v))
+                        collect.append((mknot(test) if g is None else ("and", mknot(test), g), v))
                 if t1 and t2:
                     return True
                 if t1:
@@ -236,66 +241,119 @@ class Sym:
                     return False
                 exc = unparse(h.type).strip("()") if h.type is not None else "BaseException"
                 if r1 and r2 and collect is not None:
-                    collect.append((guard, ("try", r1[-1][1], exc, r2[-1][1])))
+                    collect.append((guard, mktry(r1[-1][1], exc, r2[-1][1])))
+                    return True
+                if r2 and not r1 and collect is not None and self._terminates(h.body) and len(r2) == 1:
+                    # try: X = A  except E: return B ; ...rest using X...   ==   try(rest value) except E: B
+                    rest_rets = []
+                    ok3 = self._run(list(stmts[i + 1:]), e1, depth, rest_rets, guard)
+                    if not ok3 or not rest_rets:
+                        return False
+                    val = rest_rets[-1][1]
+                    for test_, v_ in reversed(rest_rets[:-1]):
+                        val = mkphi(test_, v_, val) if test_ is not None else v_
+                    collect.append((guard, mktry(val, exc, r2[-1][1])))
                     return True
                 for k in set(e1) | set(e2):
                     a, b = e1.get(k, ("unbound", k)), e2.get(k, ("unbound", k))
-                    env[k] = a if a == b else ("try", a, exc, b)
+                    env[k] = a if a == b else mktry(a, exc, b)
                 continue
             if isinstance(s, (ast.For,)):
-                # accumulation loop:  for v in L: acc += f(v)   (possibly several accumulators; side-effect calls ignored)
+                # loops whose only effects are appends to lists and additions to accumulators, possibly under ifs / continue:
+                #   for v in L: X.append(f(v))        ==  X + [f(v) for v in L]
+                #   for v in L: if c(v): continue; acc += f(v)   ==  acc + sum(f(v) for v in L if not c(v))
                 it = self.expr(s.iter, env, depth)
                 bv = ("bv", self._fresh())
                 e2 = dict(env)
                 self._bind(s.target, bv, e2)
-                accs = {}
-                simple = True
-                conds = {}
-                # append loop:  for v in L: X.append(f(v))   ==  X + [f(v) for v in L]
-                if len(s.body) == 1 and isinstance(s.body[0], ast.Expr) and isinstance(s.body[0].value, ast.Call) and not s.orelse:
-                    c = s.body[0].value
-                    if isinstance(c.func, ast.Attribute) and c.func.attr == "append" and isinstance(c.func.value, ast.Name) \
-                            and c.func.value.id in env and env[c.func.value.id][0] in ("list", "comp") and len(c.args) == 1:
-                        cur = env[c.func.value.id]
-                        if cur[0] == "comp":
-                            cur = ("list", (("splice", cur),))
-                        comp = ("comp", self.expr(c.args[0], e2, depth), bv, it, ())
-                        env[c.func.value.id] = _norm_list(("list", cur[1] + (("splice", comp),)))
-                        continue
-                for b in s.body:
-                    if isinstance(b, ast.AugAssign) and isinstance(b.target, ast.Name) and isinstance(b.op, ast.Add):
-                        accs.setdefault(b.target.id, []).append(self.expr(b.value, e2, depth))
-                    elif isinstance(b, ast.If) and not b.orelse and all(
-                            isinstance(x, ast.AugAssign) and isinstance(x.target, ast.Name) and isinstance(x.op, ast.Add) or isinstance(x, ast.Expr) for x in b.body):
-                        t = self.expr(b.test, e2, depth)
-                        for x in b.body:
-                            if isinstance(x, ast.AugAssign):
-                                accs.setdefault(x.target.id, []).append(self.expr(x.value, e2, depth))
-                                conds[x.target.id] = (t,)
-                    elif isinstance(b, ast.Expr):
-                        continue
-                    elif isinstance(b, ast.Assign) and all(isinstance(t, ast.Name) for t in b.targets):
-                        v = self.expr(b.value, e2, depth)
-                        for t in b.targets:
-                            e2[t.id] = v
-                            if t.id in env:
-                                env[t.id] = ("loop", t.id, self.fi.qual)
-                    else:
-                        simple = False
-                if not simple or s.orelse:
+                effects = []
+                assigned = set()
+
+                def walk(stmts, e3, conds):
+                    for k, b in enumerate(stmts):
+                        if isinstance(b, ast.Expr):
+                            c = b.value
+                            if isinstance(c, ast.Call) and isinstance(c.func, ast.Attribute) and isinstance(c.func.value, ast.Name) \
+                                    and c.func.attr == "append" and len(c.args) == 1 and c.func.value.id in env \
+                                    and env[c.func.value.id][0] in ("list", "comp"):
+                                effects.append(("append", c.func.value.id, self.expr(c.args[0], e3, depth), tuple(conds)))
+                            elif isinstance(c, ast.Call) and isinstance(c.func, ast.Attribute) and isinstance(c.func.value, ast.Name) \
+                                    and c.func.attr in ("append", "extend", "insert", "update", "add", "pop", "remove") and c.func.value.id in env \
+                                    and env[c.func.value.id][0] in ("list", "comp", "dict", "set"):
+                                return False
+                            continue
+                        if isinstance(b, ast.AugAssign) and isinstance(b.target, ast.Name) and isinstance(b.op, ast.Add):
+                            effects.append(("add", b.target.id, self.expr(b.value, e3, depth), tuple(conds)))
+                            continue
+                        if isinstance(b, ast.Assign) and all(isinstance(t, ast.Name) for t in b.targets):
+                            v = self.expr(b.value, e3, depth)
+                            for t in b.targets:
+                                e3[t.id] = v
+                                assigned.add(t.id)
+                            continue
+                        if isinstance(b, ast.Assign) and all(isinstance(t, (ast.Tuple, ast.List)) and all(isinstance(x, ast.Name) for x in t.elts) for t in b.targets):
+                            v = self.expr(b.value, e3, depth)
+                            for t in b.targets:
+                                self._bind(t, v, e3)
+                                assigned.update(x.id for x in t.elts)
+                            continue
+                        if isinstance(b, ast.If):
+                            t = self.expr(b.test, e3, depth)
+                            rest = list(stmts[k + 1:])
+                            ok1 = walk(list(b.body) + ([] if self._terminates(b.body) else rest), dict(e3), conds + [t])
+                            ok2 = walk(list(b.orelse) + ([] if self._terminates(b.orelse) else rest), dict(e3), conds + [mknot(t)])
+                            return ok1 and ok2
+                        if isinstance(b, (ast.Continue, ast.Pass)):
+                            if isinstance(b, ast.Continue):
+                                return True
+                            continue
+                        if isinstance(b, ast.Return) and b.value is not None:
+                            effects.append(("return", None, self.expr(b.value, e3, depth), tuple(conds)))
+                            return True
+                        return False
+                    return True
+                simple = walk(list(s.body), e2, []) and not s.orelse
+                rets_in_loop = [e_ for e_ in effects if e_[0] == "return"]
+                if simple and rets_in_loop:
+                    # search loop:  for v in L: if c(v): return f(v)  ; rest      ==   first([f(v) for v in L if c(v)], else rest)
+                    if len(effects) == 1 and collect is not None:
+                        _k, _n, val, conds = rets_in_loop[0]
+                        rest_rets = []
+                        ok3 = self._run(list(stmts[i + 1:]), dict(env), depth, rest_rets, guard)
+                        if ok3 and rest_rets:
+                            rest = rest_rets[-1][1]
+                            for test_, v_ in reversed(rest_rets[:-1]):
+                                rest = mkphi(test_, v_, rest) if test_ is not None else v_
+                            collect.append((guard, ("first", mkcomp("comp", val, bv, it, conds), rest)))
+                            return True
+                    simple = False
+                per_list = {}
+                for kind, name, val, conds in effects:
+                    if kind == "append":
+                        per_list.setdefault(name, []).append((val, conds))
+                if any(len(v) > 1 for v in per_list.values()):
+                    simple = False
+                if not simple:
                     # not understood: every name assigned or mutated in the loop becomes opaque
-                    for n in ast.walk(s):
-                        if isinstance(n, ast.Name) and isinstance(n.ctx, ast.Store):
-                            env[n.id] = ("loop", n.id, self.fi.qual)
-                        if isinstance(n, ast.Call) and isinstance(n.func, ast.Attribute) and isinstance(n.func.value, ast.Name) \
-                                and n.func.attr in ("append", "extend", "insert", "update", "add", "pop", "remove"):
-                            env[n.func.value.id] = ("loop", n.func.value.id, self.fi.qual)
-                        if isinstance(n, ast.AugAssign) and isinstance(n.target, ast.Name):
-                            env[n.target.id] = ("loop", n.target.id, self.fi.qual)
+                    self._mark_loop_mutations(s, env)
                     continue
-                for name, terms in accs.items():
+                for name in assigned:
+                    if name in env:
+                        env[name] = ("loop", name, self.fi.qual)
+                for name, (item,) in ((k_, v_) for k_, v_ in per_list.items()):
+                    val, conds = item
+                    cur = env[name]
+                    if cur[0] == "comp":
+                        cur = ("list", (("splice", cur),))
+                    comp = mkcomp("comp", val, bv, it, conds)
+                    env[name] = _norm_list(("list", cur[1] + (("splice", comp),)))
+                groups = {}
+                for kind, name, val, conds in effects:
+                    if kind == "add":
+                        groups.setdefault((name, conds), []).append(val)
+                for (name, conds), terms in groups.items():
                     elt = terms[0] if len(terms) == 1 else ("binop", "+", tuple(terms))
-                    env[name] = self._binop("+", env.get(name, ("unbound", name)), ("sum", elt, bv, it, conds.get(name, ())))
+                    env[name] = self._binop("+", env.get(name, ("unbound", name)), mkcomp("sum", elt, bv, it, conds))
                 continue
             if isinstance(s, (ast.With,)):
                 if not self._run(list(s.body), env, depth, collect, guard):
@@ -317,6 +375,27 @@ class Sym:
                 continue
             return False
         return True
+
+    MUTATORS = ("append", "extend", "insert", "update", "add", "pop", "remove", "setdefault", "clear", "popitem", "discard", "sort", "reverse")
+
+    def _mark_loop_mutations(self, loop, env):
+        """names whose value is carried around the loop: assigned, augmented, stored into, or mutated through a method"""
+        q = self.fi.qual
+        for n in ast.walk(loop):
+            if isinstance(n, ast.Name) and isinstance(n.ctx, ast.Store):
+                env[n.id] = ("loop", n.id, q)
+            elif isinstance(n, ast.AugAssign) and isinstance(n.target, ast.Name):
+                env[n.target.id] = ("loop", n.target.id, q)
+            elif isinstance(n, (ast.Subscript, ast.Attribute)) and isinstance(n.ctx, ast.Store):
+                d = dotted(n.value)
+                if d and d not in ("self", "cls"):
+                    env[d] = ("loop", d, q)
+                if isinstance(n, ast.Attribute) and dotted(n) and dotted(n).startswith("self."):
+                    env[dotted(n)] = ("loop", dotted(n), q)
+            elif isinstance(n, ast.Call) and isinstance(n.func, ast.Attribute) and n.func.attr in self.MUTATORS:
+                d = dotted(n.func.value)
+                if d and d not in ("self", "cls"):
+                    env[d] = ("loop", d, q)
 
     def _terminates(self, stmts):
         return bool(stmts) and isinstance(stmts[-1], (ast.Return, ast.Raise, ast.Continue, ast.Break))
@@ -417,8 +496,8 @@ class Sym:
         if isinstance(e, ast.UnaryOp):
             v = self.expr(e.operand, env, depth)
             name = {ast.Not: "not", ast.USub: "neg", ast.UAdd: "pos", ast.Invert: "inv"}[type(e.op)]
-            if name == "not" and v and v[0] == "not":
-                return v[1]
+            if name == "not":
+                return mknot(v)
             if name == "neg" and v[0] == "const" and isinstance(v[1], (int, float)):
                 return ("const", -v[1])
             return (name, v)
@@ -472,7 +551,7 @@ class Sym:
         v = self.expr(elt, env2, depth)
         out = v
         for bv, it, conds in reversed(its):
-            out = (tag, out, bv, it, conds)
+            out = mkcomp(tag, out, bv, it, conds)
         return out
 
     def _call(self, c, env, depth):
@@ -483,7 +562,7 @@ class Sym:
         if cn == "sum" and len(args) >= 1 and args[0][0] == "comp":
             comp = args[0]
             start = args[1] if len(args) > 1 else ("const", 0)
-            return self._binop("+", start, ("sum", comp[1], comp[2], comp[3], comp[4]))
+            return self._binop("+", start, mkcomp("sum", comp[1], comp[2], comp[3], comp[4]))
         if cn == "len" and len(args) == 1:
             return ("len", args[0])
         if cn in ("list", "tuple") and len(args) == 1 and args[0][0] == "comp":
@@ -542,7 +621,7 @@ class Sym:
 
     def _inline(self, target, c, args, kws, depth, tcls):
         # only small helpers are inlined: big functions stay opaque call nodes
-        if sum(1 for _ in ast.walk(target.node)) > INLINE_MAX_NODES:
+        if target.qual in self.stack or sum(1 for _ in ast.walk(target.node)) > INLINE_MAX_NODES:
             return None
         params = list(target.params)
         if target.cls is not None and not target.is_static and params and params[0] in ("self", "cls"):
@@ -555,13 +634,53 @@ class Sym:
         for p, d in target.defaults.items():
             if p not in bound:
                 bound[p] = Sym(self.prog, target, tcls).expr(d, {}, depth + 1)
-        sub = Sym(self.prog, target, tcls or target.cls, self.inline)
+        sub = Sym(self.prog, target, tcls or target.cls, self.inline, self.stack)
         v = sub.function_value(bound, depth + 1)
         if v[0] == "opaque" or contains(v, lambda x: isinstance(x, tuple) and len(x) == 3 and x[0] == "loop"):
             return None
         if size(v) > INLINE_MAX_RESULT:
             return None
         return v
+
+
+INVERSE = {"is": "is not", "is not": "is", "==": "!=", "!=": "==", "in": "not in", "not in": "in"}
+
+
+def mknot(c):
+    """negation in normal form: double negations vanish, identity/equality/membership tests are inverted"""
+    if isinstance(c, tuple) and c:
+        if c[0] == "not":
+            return c[1]
+        if c[0] == "cmp" and c[1] in INVERSE:
+            return ("cmp", INVERSE[c[1]], c[2], c[3])
+        if c[0] == "const" and isinstance(c[1], bool):
+            return ("const", not c[1])
+    return ("not", c)
+
+
+def _subst(v, old, new):
+    if v == old:
+        return new
+    if isinstance(v, tuple):
+        return tuple(_subst(y, old, new) for y in v)
+    return v
+
+
+def mkcomp(tag, elt, bv, it, conds):
+    """comprehension / sum node; a comprehension over a comprehension is fused:
+         [E(x) for x in [F(y) for y in S if c(y)] if d(x)]  ==  [E(F(y)) for y in S if c(y) if d(F(y))]"""
+    conds = tuple(conds)
+    if isinstance(it, tuple) and it and it[0] == "comp" and isinstance(bv, tuple) and bv[0] == "bv":
+        _t, ielt, ibv, iit, iconds = it
+        return mkcomp(tag, _subst(elt, bv, ielt), ibv, iit, tuple(iconds) + tuple(_subst(c, bv, ielt) for c in conds))
+    return (tag, elt, bv, it, conds)
+
+
+def mktry(a, exc, b):
+    """try node;  try: next(<generator>) except StopIteration: B   is the search  first(<generator>, else B)"""
+    if exc == "StopIteration" and isinstance(a, tuple) and a and a[0] == "call" and a[1] == "next" and len(a[2]) == 1 and a[2][0][0] == "comp":
+        return ("first", a[2][0], b)
+    return ("try", a, exc, b)
 
 
 def item_of(value, i):
@@ -579,7 +698,7 @@ def mkphi(test, a, b):
     if a == ("const", True) and b == ("const", False):
         return test
     if a == ("const", False) and b == ("const", True):
-        return test[1] if test and test[0] == "not" else ("not", test)
+        return mknot(test)
     if test and test[0] == "not":
         return ("phi", test[1], b, a)
     return ("phi", test, a, b)
@@ -681,6 +800,8 @@ def show(x, depth=0):
         return "[%s for %s in %s%s]" % (show(x[1]), show(x[2]), show(x[3]), "".join(" if " + show(c) for c in x[4]))
     if tag == "try":
         return "try(%s except %s: %s)" % (show(x[1]), x[2], show(x[3]))
+    if tag == "first":
+        return "first(%s, else %s)" % (show(x[1]), show(x[2]))
     if tag == "phi":
         return "(%s if %s else %s)" % (show(x[2]), show(x[1]), show(x[3]))
     if tag == "attr":
